@@ -373,9 +373,7 @@ func pureCall(cc *ssa.CallCommon) bool {
 	}
 	n := sc.String()
 	pk := ""
-	if sc.Pkg != nil {
-		pk = sc.Pkg.Pkg.Path()
-	}
+	pk = pkgPathOf(sc)
 	if purePkgs[pk] || n == "fmt.Sprintf" || n == "fmt.Sprint" {
 		return true
 	}
